@@ -4871,3 +4871,33 @@ def fast_path_error_arm(ctx, mir, stats):
     return [{"id": "fast-path:undecodable-update-continues", "ok": ok, "functions": [f.name], "where": f.name, "needs_native": True, "native": None if ok else FP_FOLLOWERS_NATIVE,
              "detail": "when FastPathUpdate::from_fp fails for one update the loop goes on to the next update: the function cannot return from that arm" if ok else
              "the error arm of FastPathUpdate::from_fp can leave read_fast_path: the bitmap updates that follow an undecodable update in the same PDU never reach the application"}]
+
+
+# --------------------------------------------------------------------------
+# C02: Connector::connect hands its certificate policy to the X.224 layer unchanged
+# --------------------------------------------------------------------------
+def connector_certificate_policy(ctx, mir, stats):
+    new = find_fn(mir, r"^client::<impl at src/core/client\.rs[^>]*>::new$")
+    names = None
+    for b in new.order:
+        for s_ in new.blocks[b].stmts:
+            m = re.match(r"^_0 = Connector \{ (.*) \};$", s_.strip())
+            if m:
+                names = [x.split(":")[0].strip() for x in split_top(m.group(1))]
+    if not names or "check_certificate" not in names:
+        raise Inconclusive("ENCODING-FAILED: Connector fields not recognised")
+    idx = names.index("check_certificate")
+    f = find_fn(mir, r"^client::<impl at src/core/client\.rs[^>]*>::connect$")
+    se = SymExec(f, stats, loop_bound=0, max_paths=8000).run()
+    ok, n, why = True, 0, ""
+    for p in se.finished + [a[0] for a in se.asserts]:
+        for i, ev in calls_on(p.events, r"x224::Client::<S>::connect$"):
+            n += 1
+            arg = ev[4][2].strip()
+            src = resolve_source(p.events, i, arg, depth=6).strip()
+            if not re.match(r"^(copy |move )?\(\(\*_1\)\.%d: bool\)$" % idx, src) and not re.match(r"^(copy |move )?\(\(\*_1\)\.%d: bool\)$" % idx, arg):
+                ok, why = False, src[:100]
+    ok = ok and n > 0
+    return [{"id": "connector:certificate-policy-unchanged", "ok": ok, "functions": [f.name], "where": f.name, "needs_native": False, "native": None,
+             "detail": "Connector::connect gives x224::Client::connect its own check_certificate setting, unmodified, on every path (with and without NLA, in every mode)" if ok else
+             "Connector::connect gives x224::Client::connect `%s` instead of its check_certificate setting: the caller's certificate policy is altered" % why}]
